@@ -4,7 +4,10 @@ package service
 // replays and reflected server salts are treated the same; metrics calls match.
 
 import (
+	"bytes"
 	"context"
+	"github.com/Jigsaw-Code/outline-sdk/transport/shadowsocks"
+	"io"
 	"net"
 	"time"
 
@@ -222,7 +225,14 @@ func VH_C06_replay() {
 	verifAssert("C07.first-served.ok", len(m1.closed) == 1 && m1.closed[0] == "OK")
 	// second presentation (another client address, same bytes) is a probe
 	conn2 := &verifStreamConn{name: "client2", remote: &net.TCPAddr{IP: net.IPv4(198, 51, 100, 99), Port: 40000}}
-	conn2.reads = []verifSRead{{data: append([]byte{}, stream...)}}
+	replayed := append([]byte{}, stream...)
+	if verifFlag("replayer-alters-what-follows-the-first-block") {
+		// the handshake is the access key plus the salt: whatever follows the salt and the sealed
+		// length is the replayer's to choose
+		first := key.SaltSize() + 2 + 16
+		copy(replayed[first:], verifBytes("altered-tail", len(replayed)-first))
+	}
+	conn2.reads = []verifSRead{{data: replayed}}
 	extra := verifChoice("extra", 2) * 11
 	if extra > 0 {
 		conn2.reads = append(conn2.reads, verifSRead{data: verifBytes("more", extra)})
@@ -241,6 +251,8 @@ func verifC06ReplayRun(conn *verifStreamConn, cl CipherList, cache *ReplayCache,
 // C08: a handshake whose salt carries the server's own mark for the matched key is refused
 // whether or not the replay history is enabled
 func VH_C08_reflected() {
+	verifEmptyIDs = verifFlag("empty-key-ids")
+	defer func() { verifEmptyIDs = false }()
 	cl, specs, entries := verifMakeList(1+verifChoice("nkeys", 2), 2, false)
 	// any entry of the list, in particular one that follows an entry with the same secret
 	which := verifChoice("which", len(specs))
@@ -331,11 +343,28 @@ func VH_C06_badchunk() {
 	more := verifBytes("later", 40)
 	conn.reads = []verifSRead{{data: stream}, {data: more}}
 	target := &verifStreamConn{name: "target", glog: &glog, remote: &net.TCPAddr{IP: net.IPv4(93, 184, 216, 34), Port: 80}}
+	// the target may still have something to say after the client's stream went bad: the other
+	// direction keeps flowing (C02)
+	late := verifFlag("target-answers-afterwards")
+	answer := verifBytes("answer", 3)
+	if late {
+		target.reads = []verifSRead{{data: answer}}
+		target.onRead = func(call int) {
+			if call == 1 {
+				verifQuiesce() // the client-to-target side runs into the bad chunk and finishes first
+			}
+		}
+	}
 	dialer := &verifDialer{conn: target}
 	h := NewStreamHandler(NewShadowsocksStreamAuthenticator(cl, nil, nil, nil), tcpReadTimeout)
 	h.SetTargetDialer(dialer)
 	m := &verifTCPMetrics{}
 	h.Handle(context.Background(), conn, m)
+	if late {
+		r := shadowsocks.NewReader(bytes.NewReader(conn.written), key)
+		got, err := io.ReadAll(r)
+		verifAssert("C02.badchunk.target-to-client-keeps-flowing", err == nil && len(got) == 3 && verifBytesEq(got, answer))
+	}
 	verifAssert("C06.badchunk.status", len(m.closed) == 1 && m.closed[0] == "ERR_RELAY_CLIENT")
 	verifAssert("C06.badchunk.first-chunk-forwarded", string(target.written) == "xy")
 	fin := verifIndexStr(glog, "target:CloseWrite")
